@@ -144,3 +144,11 @@ claim("C11", ENGINE_A + "; anyOf oracle (A-ANYOF), allOf specification on a mode
       "constraints of a property declared twice, union of required. The mergo merge itself is a stated model (options WithAppendSlice / WithTransformers / WithoutDereference understood; any other is "
       "undecided). The raw-$ref resolution cache must be per file; unresolvable branch references are errors. One known finding (same keyword in two branches: first wins).",
       "as C06; fidelity of the mergo model", "DESIGN.md §2 C11")
+
+claim("C02", ENGINE_A + "; A-TAG / A-MAP / A-NOEXTRA oracles; B-SIZED region analysis; B-LAYOUT sibling agreement in pkg/types; B-ADDPROPS ordering",
+      "Decides structural necessary conditions of lossless acceptance: every configured tag of every field carries the raw (symbolic) property name, with omitempty exactly for optional properties, under "
+      "three tag lists; the Go type chosen for every (type, format, nullability, position) is the oracle's; no emitted unmarshaler over the broad union of families rejects on anything the schema does not "
+      "state; under --min-sized-ints the chosen type holds every admitted value in every cell of the width table; the date/time wrappers print with the layout they parse with on every return path; both "
+      "emitters delete declared keys before collecting additional properties. Value equality after a round trip, numeric precision, RFC 3339 conformance and encoding/json's key matching are runtime "
+      "quantities and are NOT decided. Two known findings (shared with C03).",
+      "as C06", "DESIGN.md §2 C02")
